@@ -666,6 +666,15 @@ package fzf
 //@ func defaultTmuxOptions
 //@ ensures result != nil && fresh(result)
 //@ func parseSize trusted
+// maskActionContents blanks out the arguments of actions in a --bind specification so that the specification can be
+// split at commas and colons by *offset*: the masked text must be exactly as long, in bytes, as the original.
+//@ func maskActionContents
+//@ property C17
+//@ libfact @after"FindStringIndex(action)" loc == nil || loc[1] >= 1 -- both patterns begin with a literal character, so a match is never empty
+//@ ensures len(result) == len(action)
+//@ loop 1
+//@   invariant len(masked) + len(action) == old(len(action))
+
 //@ func parseTmuxOptions
 //@ property C17
 //@ ensures (r0 == nil) == (r1 != nil)
